@@ -177,6 +177,23 @@ static int is_stun_response (const uint8_t *d, size_t len)
   return stun_message_get_class (&m) == STUN_RESPONSE || stun_message_get_class (&m) == STUN_ERROR;
 }
 
+/* per-transaction drop counters (requests and responses only) */
+static struct { uint64_t key; unsigned n; } txctr[1 << 16];
+static unsigned *txid_ctr (const uint8_t *d, size_t len)
+{
+  StunMessage m; uint64_t h = 1469598103934665603ULL; int i; unsigned slot;
+  if (len < 20 || stun_message_validate_buffer_length (d, len, TRUE) != (int) len) return NULL;
+  memset (&m, 0, sizeof m); m.buffer = (uint8_t *) d; m.buffer_len = len;
+  if (stun_message_get_class (&m) == STUN_INDICATION) return NULL;
+  for (i = 4; i < 20; i++) { h ^= d[i]; h *= 1099511628211ULL; }
+  if (h == 0) h = 1;
+  for (slot = (unsigned) (h & 0xffff), i = 0; i < 65536; i++, slot = (slot + 1) & 0xffff) {
+    if (txctr[slot].key == h) return &txctr[slot].n;
+    if (txctr[slot].key == 0) { txctr[slot].key = h; txctr[slot].n = 0; return &txctr[slot].n; }
+  }
+  return NULL;
+}
+
 static void vsend (const struct sockaddr_in *from, const struct sockaddr_in *to, const uint8_t *d, size_t len)
 {
   unsigned lat;
@@ -186,14 +203,15 @@ static void vsend (const struct sockaddr_in *from, const struct sockaddr_in *to,
   if (blacked_out (from, to)) drop = 1;
   else if (dropnext > 0) { dropnext--; drop = 1; }
   else if (loss_pct > 0 && (rng_next () % 100) < loss_pct) {
-    /* at most loss_maxconsec drops between two delivered STUN responses on an endpoint pair:
-     * with maxconsec < transmission limit no transaction loses all its attempts */
-    LossCtr *c = loss_ctr (pair_key (from, to));
-    if (c && loss_maxconsec > 0 && c->consec >= loss_maxconsec) drop = 0;
-    else { if (c) c->consec++; drop = 1; }
+    /* the property's loss hypothesis: fewer attempts (a request or its response) of a check are lost
+     * than the transmission limit.  Enforced per STUN transaction: at most loss_maxconsec packets
+     * carrying one transaction id are dropped, so one of its N attempts gets through both ways.
+     * Indications and non-STUN data are dropped freely. */
+    unsigned *c = txid_ctr (d, len);
+    if (c && loss_maxconsec > 0 && *c >= loss_maxconsec) drop = 0;
+    else { if (c) (*c)++; drop = 1; }
   }
   if (drop) { n_dropped++; if (trace_packets) printf ("ev t=%llu drop\n", (unsigned long long) (verif_now_us / 1000)); return; }
-  if (is_stun_response (d, len)) { LossCtr *c = loss_ctr (pair_key (from, to)); if (c) c->consec = 0; }
   lat = lat_min + (lat_max > lat_min ? rng_next () % (lat_max - lat_min + 1) : 0);
   enqueue (from, to, d, len, verif_now_us + (uint64_t) lat * 1000);
   if (dup_pct > 0 && (rng_next () % 100) < dup_pct) {
@@ -679,11 +697,12 @@ static void print_checklist (Ag *g, guint sid)
   NiceStream *s; GSList *i;
   agent_lock (g->agent);
   s = agent_find_stream (g->agent, sid);
-  printf ("ok");
+  printf ("ok role=%d", g->agent->controlling_mode ? 1 : 0);
   if (s) for (i = s->conncheck_list; i; i = i->next) {
     CandidateCheckPair *p = i->data; char a[80], b[80];
     addr_str (&p->local->addr, a); addr_str (&p->remote->addr, b);
-    printf (" %llu:%d:%d:%d:%u:%s>%s", (unsigned long long) p->priority, p->state, p->nominated, p->valid, p->component_id, a, b);
+    printf (" %llu:%d:%d:%d:%u:%s>%s:%u:%u", (unsigned long long) p->priority, p->state, p->nominated, p->valid, p->component_id, a, b,
+        p->local->priority, p->remote->priority);
   }
   printf ("\n");
   agent_unlock (g->agent);
